@@ -17,6 +17,15 @@ Content-Format, an unparsable payload, a Reset, or nothing at all. A simple regi
 other in the model: it takes the links that were fetched, the registrant's address as base, the location the
 (ep, d) had before, and its lifetime runs from some instant between the POST and the directory's answer (Reg.slack).
 
+About half of the histories also carry "odd" content -- what a registrant is free to send although link-format or RFC 3986
+cannot carry it as it stands: parameter names that are no RFC 6690 parmname (up to a whole foreign link), parameter values,
+endpoint names and link attribute values with backslashes, quotes and the link-format delimiters (links written with
+quoted-pairs, or bare after the '='), parameters and link attributes without a value, a `base` / link target / anchor that has
+no RFC 3986 authority, a `base` without a value, and updates that name the very base the directory lists. The directory may
+refuse such a write (4.00: nothing changes) or accept it; the oracle is on what the lookups say afterwards: they must be
+answered 2.05 with link-format that parses and lists exactly what the model holds (the values as they were MEANT, independent
+of any parser: oddlinkset writes the payload from the structure), and filters on such names and values must work.
+
 Where the unchanged tree deviates in an already understood way the deviation is reported under its mechanism key and the
 model is re-synchronised to the observed state, so that the rest of the history is still judged.
 """
@@ -30,19 +39,23 @@ TECHNIQUE = (
     "histories of register / re-register (with body, and by simple registration where the directory fetches /.well-known/core from the raw "
     "registrant, which answers with link-format piggybacked / separate / after a lost transmission / block-wise, an empty list, an error, a wrong or "
     "missing Content-Format, garbage, a Reset or not at all) / POST and PUT update / DELETE / filtered and paged lookups / idle steps across lt and "
-    "lt+grace, with valid and invalid parameters; oracle = response-driven reference model keyed by (ep, d), compared after every step with endpoint lookup, "
+    "lt+grace, with valid and invalid parameters; in half of the histories also odd content (parameter names that are no parmname, values / endpoint "
+    "names / link attribute values with backslashes, quotes and delimiters, parameters and link attributes without a value, base / link target / anchor without "
+    "an RFC 3986 authority, base without a value, updates naming the base the directory lists) and filters on those names and values; oracle = response-driven reference model keyed by (ep, d), compared after every step with endpoint lookup, "
     "resource lookup and every registration resource as parsed by an independent RFC 6690 parser and RFC 3986 resolver"
 )
 LEVEL_TEXT = (
     "After every step of every history the complete externally visible state of the directory (both lookups and all known registration "
     "resources, live and freed) is compared with the model; a request answered 4.xx must leave that state identical, a 2.01 must obey the "
     "location rules (for a simple registration, whose 2.04 names no location, on the location the endpoint lookup shows for that (ep, d)), and "
-    "liveness must follow last successful write + lt + grace on the virtual clock."
+    "liveness must follow last successful write + lt + grace on the virtual clock (a write answered 5.xx is not a successful one either). "
+    "Whatever a write contained, every later lookup must be answered 2.05 with link-format that the independent parser reads and that lists "
+    "exactly the model's entries, with the parameter and attribute values as they were meant."
 )
 LEVEL_NOTE = (
     "Trusted: harness/c20_ref.py (model, RFC 3986 resolution), harness/reflink.py, simnet, refcodec. lt is not visible in lookups (RFC 9176 6.3), "
     "so a lifetime changed by a rejected request is only seen at the next boundary crossing (when several rejected requests could explain it the "
-    "violation is filed under the first of ALT_ORDER and the witness lists all); instants within 0.5 s of a model boundary are not sampled. "
+    "violation is filed under one answered 5.xx before one answered 4.xx, then the first of ALT_ORDER, and the witness lists all); instants within 0.5 s of a model boundary are not sampled. "
     "A simple registration is carried out at some instant between the registrant's POST and the directory's answer (up to 93 s when the fetch is "
     "not answered): the model's clock follows the virtual clock, what ran out meanwhile is gone, the new lifetime is taken from the answer and the "
     "interval [POST, answer] + lt + grace is not sampled; whether a registration that ran out during the fetch was re-registered or created anew is "
@@ -52,12 +65,18 @@ LEVEL_NOTE = (
     "answered with usable link-format, or that carried base / proxy, has no defined meaning: counted, history ended, pinned by the fixed script. "
     "Re-use of a freed location for a later registration of another (ep, d) is counted, not judged (JUDGE_LOCATION_REUSE). 5.xx answers are counted "
     "and the model is re-synchronised from the observation (the statement speaks about 4.xx). Acceptance is pinned by a fixed script only. "
-    "Understood deviations (mechanism keys rejected-*/..., expiry/lifetime-set-by-rejected-*, lookup-res/links-not-resolved-against-base) "
-    "re-synchronise the model to the observed state so that the rest of the history is still judged; any other difference ends the history."
+    "Understood deviations (mechanism keys rejected-*/..., expiry/lifetime-set-by-rejected-* and -failed-* (request answered 5.xx), lookup-res/links-not-resolved-against-base) "
+    "re-synchronise the model to the observed state so that the rest of the history is still judged; any other difference ends the history. "
+    "Odd content is judged on the lookups only, never on the response code of the write (refusing with 4.00 and accepting-and-escaping are both right); a mismatch "
+    "is NAMED after the odd content of the registrations concerned (linkformat-injection/<parameter-name|parameter-value|link-attribute-value>/..., "
+    "unresolvable-uri/<base|link-target>/..., valueless-attribute/...) by harness/c20_ref.py features(), which plays no part in deciding that there is a mismatch. "
+    "Link sets written bare after '=' (not RFC 6690) mean what they were written from if the directory accepts them. A value-less search criterion is not generated."
 )
 RULE = (
     "one case = one history of 5-40 steps over <=4 endpoint names x <=2 sectors from <=3 registrants (plus 10 fixed scripts in shard 0); about an "
     "eighth of the steps are simple registrations (10 reactions of the registrant to the directory's fetch x 5 ways of delivering an answer). "
+    "In about half of the histories a quarter of the writes carry one of 30 odd parameter variants, a third of the bodies / fetched link sets one of 10 odd link sets, "
+    "one endpoint name may need escaping, every eighth update names the listed base, and half of the filtered lookups search the odd names and values. "
     "Non-trivial = the history contains a re-registration (either way), a rejected write to a live registration, an observed expiry or a request to a "
     "freed location; distinct = distinct sequences of (operation class, parameter variant, body variant or fetch reaction and delivery, response class)"
 )
@@ -71,8 +90,14 @@ ASSUMPTIONS = [
 REQUIRED_MONITORS = {
     # simple_registration: simple-registration steps whose outcome was compared with the model; _listed: those answered 2.xx (fetched links,
     # base, location, lifetime judged); _failed_fetch: those whose fetch got no usable link-format and that were not answered 2.xx
-    "quick": {"lookup_ep_matches_model": 15000, "lookup_res_matches_model": 15000, "registration_resource_matches_model": 25000, "unchanged_after_4xx": 6000, "location_rules": 3000, "expiry": 4000, "acceptance_pins": 30, "lookup_filter": 1500, "lookup_filter_two_criteria": 300, "pagination": 500, "simple_registration": 2500, "simple_registration_listed": 1000, "simple_registration_failed_fetch": 1000},
-    "thorough": {"lookup_ep_matches_model": 500000, "lookup_res_matches_model": 500000, "registration_resource_matches_model": 800000, "unchanged_after_4xx": 200000, "location_rules": 100000, "expiry": 120000, "acceptance_pins": 30, "lookup_filter": 50000, "lookup_filter_two_criteria": 10000, "pagination": 15000, "simple_registration": 100000, "simple_registration_listed": 40000, "simple_registration_failed_fetch": 40000},
+    # write_*: writes to (or creating) a registration that carried the odd content named, whatever the answer, followed by a complete
+    # comparison; update_naming_listed_base: updates with base=<what the endpoint lookup shows> (_default_base: the registration had no
+    # explicit base); filter_on_*: filtered lookups compared with the model whose search key some live registration carries without a
+    # value / whose search value contains a backslash or quote (_matching: and the model expects entries)
+    "quick": {"lookup_ep_matches_model": 15000, "lookup_res_matches_model": 15000, "registration_resource_matches_model": 25000, "unchanged_after_4xx": 6000, "location_rules": 3000, "expiry": 4000, "acceptance_pins": 30, "lookup_filter": 1500, "lookup_filter_two_criteria": 300, "pagination": 500, "simple_registration": 2500, "simple_registration_listed": 1000, "simple_registration_failed_fetch": 1000,
+              "write_parameter_name_not_a_parmname": 400, "write_parameter_value_needing_escapes": 450, "write_parameter_without_value": 300, "write_base_not_a_uri": 200, "write_base_without_value": 90, "write_links_needing_escapes": 900, "write_link_attributes_without_value": 130, "write_link_target_not_a_uri": 450, "update_naming_listed_base": 400, "update_naming_listed_default_base": 300, "filter_on_name_registered_without_value": 60, "filter_on_value_needing_escapes": 220, "filter_on_value_needing_escapes_matching": 15},
+    "thorough": {"lookup_ep_matches_model": 500000, "lookup_res_matches_model": 500000, "registration_resource_matches_model": 800000, "unchanged_after_4xx": 200000, "location_rules": 100000, "expiry": 120000, "acceptance_pins": 30, "lookup_filter": 50000, "lookup_filter_two_criteria": 10000, "pagination": 15000, "simple_registration": 100000, "simple_registration_listed": 40000, "simple_registration_failed_fetch": 40000,
+                 "write_parameter_name_not_a_parmname": 16000, "write_parameter_value_needing_escapes": 18000, "write_parameter_without_value": 12000, "write_base_not_a_uri": 8000, "write_base_without_value": 3600, "write_links_needing_escapes": 36000, "write_link_attributes_without_value": 5200, "write_link_target_not_a_uri": 18000, "update_naming_listed_base": 16000, "update_naming_listed_default_base": 12000, "filter_on_name_registered_without_value": 2400, "filter_on_value_needing_escapes": 8800, "filter_on_value_needing_escapes_matching": 600},
 }
 
 JUDGE_LOCATION_REUSE = False  # see do_reg: count (False) or report (True) the re-use of a freed location for another (ep, d)
@@ -114,6 +139,44 @@ REG_PV = {
     # whose fetch is then addressed differently): expected to be refused, without a defined meaning if accepted
     "proxy": (["proxy=yes"], "ext"),
 }
+# "odd": content a registrant is free to send and that link-format or RFC 3986 cannot carry as it stands -- parameter
+# names that are no RFC 6690 parmname (up to a complete foreign link smuggled in), values with the characters
+# link-format quotes or escapes, parameters without a value, a `base` that is no URI (RFC 3986 3.2 authority) or has no
+# value. The directory may refuse (4.00: nothing changes) or accept; what it accepted it has to list faithfully in
+# answers that still parse, and every lookup has to keep working. Judged on the lookups, never on the response code.
+ODD_PV = {
+    "name-foreign-link": (["x,</reg/9/>;ep=ghost"], "odd"),
+    "name-empty": (["=x"], "odd"),
+    "name-semicolon": (["a;b=c"], "odd"),
+    "name-space": (["a b=c"], "odd"),
+    "name-quote": (['a"b=c'], "odd"),
+    "name-angle": (["<a>=c"], "odd"),
+    "name-slash": (["a/b=c"], "odd"),
+    "name-nonascii": (["n\u00e9=c"], "odd"),
+    "name-comma-novalue": (["a,b"], "odd"),
+    "value-backslash-end": (["foo=x\\"], "odd"),
+    "value-backslash-mid": (["foo=a\\b"], "odd"),
+    "value-backslash-quote": (['foo=a\\"b'], "odd"),
+    "value-backslash-only": (["foo=\\"], "odd"),
+    "value-two-backslashes": (["foo=bar", "foo=c\\\\"], "odd"),
+    "value-quote": (['foo=say "hi"'], "odd"),
+    "value-delimiters": (["foo=a,b;c=<d>"], "odd"),
+    "value-empty": (["foo="], "odd"),
+    "value-nonascii": (["foo=gr\u00fc\u00df gott"], "odd"),
+    "et-backslash+lt60": (["lt=60", "et=oic\\d"], "odd"),
+    "if-novalue": (["if"], "odd"),
+    "if-novalue+lt60": (["lt=60", "if"], "odd"),
+    "obs-novalue": (["obs"], "odd"),
+    "base-bracket-open": (["base=coap://["], "odd"),
+    "base-v6-unclosed+lt60": (["lt=60", "base=coap://[::1"], "odd"),
+    "base-bracket-no-address": (["base=coap://[zz]/p/"], "odd"),
+    "base-bracket-close-only": (["base=coap://h.example]/x"], "odd"),
+    "base-not-ascii-compatible": (["base=coap://ex\u2100mple/"], "odd"),
+    "base-novalue": (["base"], "odd"),
+    "lt5+base-novalue": (["lt=5", "base"], "odd"),
+}
+REG_PV.update(ODD_PV)
+REG_ODD = list(ODD_PV)
 REG_VALID = [k for k, v in REG_PV.items() if v[1] == "valid"]
 REG_SHORT = ["lt60", "lt60", "lt120", "lt1", "lt60+extra", "lt60+base", "plain", "extra", "base-v6"]
 REG_INVALID = [k for k, v in REG_PV.items() if v[1] == "invalid"]
@@ -140,7 +203,18 @@ UPD_PV = {
     "extra+lt-alpha": (["foo=q", "lt=abc"], "invalid"),
     "lt-ok+ep": (["lt=70", "ep=x"], "invalid"),
     "lt-novalue": (["lt"], "5xx"),
+    # (the lifetimes of the variants below occur in no other variant, so that a lifetime seen at work names its request)
+    # an update that names the base the directory lists for the registration ({base}); entirely valid (RFC 9176 5.3.1)
+    "base-as-listed": (["base={base}"], "valid"),
+    "lt3+base-as-listed": (["lt=3", "base={base}"], "valid"),
+    "lt240+base-as-listed": (["lt=240", "base={base}"], "valid"),
+    "lt45+base-as-listed+extra": (["base={base}", "lt=45", "foo=pinned"], "valid"),
 }
+UPD_PV.update({k: v for k, v in ODD_PV.items()})
+UPD_PV["lt180+base-novalue"] = (["lt=180", "base"], "odd")
+UPD_ODD = [k for k, v in UPD_PV.items() if v[1] == "odd"]
+UPD_AS_LISTED = [k for k in UPD_PV if "base-as-listed" in k]
+UPD_FOLLOW = [k for k in UPD_PV if k.startswith("lt") and ("base-as-listed" in k or "base-novalue" in k)]
 UPD_VALID = [k for k, v in UPD_PV.items() if v[1] == "valid"]
 UPD_INVALID = [k for k, v in UPD_PV.items() if v[1] == "invalid"]
 
@@ -181,6 +255,64 @@ def linkset(i, tag):
     ][i].encode()
 
 
+# Link sets whose attribute values need link-format's quoting and escaping (RFC 6690 2: quoted-string with quoted-pair),
+# attributes without a value, and link targets / anchors that are no URI reference any base can resolve. Written out as
+# structure so that what is MEANT does not depend on any parser: (target, ((attribute, value | None), ...)).
+# `how`: "quoted" = serialised per RFC 6690 ('\\' and '"' escaped in quoted-strings); "token" = the value follows the '='
+# bare although it contains characters outside ptoken -- not RFC 6690, a directory may refuse it (4.00) or read it the
+# only way it can be read (up to the next ';' or ','), which is what is meant.
+NODDLINKS = 10
+
+
+def oddlinkset(i, tag):
+    """-> (payload, meant links, how)"""
+    t = tag
+    sets = [
+        ([("/%s/bs" % t, (("title", "x\\"),))], "quoted"),
+        ([("/%s/bs" % t, (("foo", "x\\"),)), ("/%s/n" % t, (("rt", "plain"),))], "token"),
+        ([("/%s/q" % t, (("title", 'say "hi"'), ("rt", "a b")))], "quoted"),
+        ([("/%s/m" % t, (("title", "a\\b\\\\c"), ("if", "sensor")))], "quoted"),
+        ([("/%s/p" % t, (("title", "plain"), ("rt", "temperature-c")))], "quoted-pair-everywhere"),
+        ([("/%s/u" % t, (("title", "gr\u00fc\u00df, gott; <x>=\\\"y\\\""),))], "quoted"),
+        ([("/%s/v" % t, (("obs", None), ("foo", None), ("bar", ""), ("if", None), ("rt", None))), ("/%s/w" % t, (("rt", "light-lux"), ("title", None)))], "quoted"),
+        ([("/%s/ok" % t, (("rt", "ext"),)), ("http://[", ())], "quoted"),
+        ([("//[::1/%s" % t, (("rt", "x"),))], "quoted"),
+        ([("/%s/anch" % t, (("anchor", "coap://[zz]/"), ("rel", "hosts")))], "quoted"),
+    ]
+    meant, how = sets[i]
+    out = []
+    for href, params in meant:
+        parts = ["<%s>" % href]
+        for k, v in params:
+            if v is None:
+                parts.append(k)
+            elif how == "token":
+                parts.append("%s=%s" % (k, v))
+            elif how == "quoted-pair-everywhere":
+                parts.append('%s="%s"' % (k, "".join("\\" + c for c in v)))
+            else:
+                parts.append('%s="%s"' % (k, v.replace("\\", "\\\\").replace('"', '\\"')))
+        out.append(";".join(parts))
+    return ",".join(out).encode("utf8"), meant, how
+
+
+def oddlinks_selftest(reflink):
+    """What is written for an odd link set means, read by the independent RFC 6690 parser, exactly the structure it was
+    written from (the "token" style, which is not RFC 6690, is refused by that parser)."""
+    for i in range(NODDLINKS):
+        payload, meant, how = oddlinkset(i, "t")
+        want = [reflink.Link(h, tuple(ps)) for h, ps in meant]
+        if how == "token":
+            try:
+                reflink.parse(payload)
+            except reflink.Malformed:
+                continue
+            raise AssertionError("odd link set %d: the token style was meant not to be RFC 6690" % i)
+        got = reflink.parse(payload)
+        assert got == want, (i, payload, got, want)
+    return True
+
+
 def plan(tier, seed):
     n = 16
     per = {"quick": 220, "thorough": 10000}[tier]
@@ -190,7 +322,9 @@ def plan(tier, seed):
 # ---------------------------------------------------------------------------------------------- generation
 
 
-def gen_body(r, ver):
+def gen_body(r, ver, odd=False):
+    if odd and r.random() < 0.35:
+        return ["odd", r.randrange(NODDLINKS), ver]
     x = r.random()
     if x < 0.80:
         return ["links", r.randrange(NLINKSETS), ver]
@@ -203,10 +337,12 @@ def gen_body(r, ver):
     return ["nobody-nocf"]
 
 
-def gen_react(r, ver):
+def gen_react(r, ver, odd=False):
     """-> (reaction of the registrant to the directory's fetch, delivery mode, delay of a separate response)"""
     x = r.random()
-    if x < 0.50:
+    if odd and r.random() < 0.3:
+        react = ["odd", r.randrange(NODDLINKS), ver]
+    elif x < 0.50:
         react = ["links", r.randrange(NLINKSETS), ver]
     elif x < 0.56:
         react = ["empty"]
@@ -242,12 +378,21 @@ def gen(r):
     n = r.choice([5, 8, 12, 16, 24, 32, 40])
     neps, nsect, npeers = r.choice([1, 2, 2, 3, 4]), r.choice([1, 2]), r.choice([1, 2, 3])
     short = r.random() < 0.75
+    # about half of the histories also carry "odd" content (see ODD_PV, oddlinkset, ODD_EPS): there about a quarter of the
+    # writes have an odd parameter variant, a third of the bodies an odd link set, and one endpoint name may be odd
+    odd = r.random() < 0.5
+    eps = list(EPS)
+    if odd and r.random() < 0.4:
+        eps[r.randrange(neps)] = r.choice(ODD_EPS)
     steps = []
     for i in range(n):
         x = r.random()
+        oddpv = odd and r.random() < 0.27
         if (i == 0 or x < 0.30) and r.random() < 0.32:
             y = r.random()
-            if y < 0.70:
+            if oddpv:
+                pv = r.choice(REG_ODD)
+            elif y < 0.70:
                 pv = r.choice(SREG_SHORT) if short and r.random() < 0.7 else r.choice(SREG_VALID)
             elif y < 0.93:
                 pv = r.choice(SREG_INVALID)
@@ -256,11 +401,13 @@ def gen(r):
             else:
                 pv = r.choice(["lt-novalue", "proxy"])
             shape = "ok" if r.random() < 0.9 else r.choice(["ep-missing", "ep-repeated", "d-repeated", "ep-novalue"])
-            react, mode, delay = gen_react(r, i)
+            react, mode, delay = gen_react(r, i, odd)
             steps.append({"op": "sreg", "peer": r.randrange(npeers), "ep": r.randrange(neps), "d": r.randrange(nsect), "shape": shape, "pv": pv, "via": "rd" if r.random() < 0.85 else "wkc", "react": react, "mode": mode, "delay": delay})
         elif i == 0 or x < 0.30:
             y = r.random()
-            if y < 0.62:
+            if oddpv:
+                pv = r.choice(REG_ODD)
+            elif y < 0.62:
                 pv = r.choice(REG_SHORT) if short and r.random() < 0.7 else r.choice(REG_VALID)
             elif y < 0.90:
                 pv = r.choice(REG_INVALID)
@@ -269,19 +416,29 @@ def gen(r):
             else:
                 pv = "lt-novalue"
             shape = "ok" if r.random() < 0.88 else r.choice(["ep-missing", "ep-repeated", "d-repeated", "ep-novalue"])
-            steps.append({"op": "reg", "peer": r.randrange(npeers), "ep": r.randrange(neps), "d": r.randrange(nsect), "shape": shape, "pv": pv, "body": gen_body(r, i)})
+            steps.append({"op": "reg", "peer": r.randrange(npeers), "ep": r.randrange(neps), "d": r.randrange(nsect), "shape": shape, "pv": pv, "body": gen_body(r, i, odd)})
         elif x < 0.52:
             y = r.random()
             pv = r.choice(UPD_VALID) if y < 0.55 else r.choice(UPD_INVALID) if y < 0.96 else "lt-novalue"
+            if oddpv:
+                pv = r.choice(UPD_ODD)
+            elif r.random() < 0.12:
+                pv = r.choice(UPD_AS_LISTED)
             body = "none" if r.random() < 0.68 else r.choice(["body+cf", "body+cf", "body-nocf", "cf-nobody"])
             steps.append({"op": "post", "peer": r.randrange(npeers), "tgt": gen_target(r, neps, nsect), "pv": pv, "body": body})
+            if pv in UPD_FOLLOW and r.random() < 0.5:
+                # lt is invisible: what such an update did to the lifetime shows after the next update that keeps "the previous lt"
+                steps.append({"op": "post", "peer": steps[-1]["peer"], "tgt": steps[-1]["tgt"], "pv": r.choice(["none", "none", "extra"]), "body": "none"})
+                steps.append({"op": "idle", "how": r.choice([["dt", 30.0], ["dt", 58.0], ["boundary", "latest-write", 0, "g+1"]])})
         elif x < 0.60:
             y = r.random()
             pv = r.choice(UPD_VALID) if y < 0.6 else r.choice(UPD_INVALID)
-            steps.append({"op": "put", "peer": r.randrange(npeers), "tgt": gen_target(r, neps, nsect), "pv": pv, "body": gen_body(r, i)})
+            if oddpv:
+                pv = r.choice(UPD_ODD)
+            steps.append({"op": "put", "peer": r.randrange(npeers), "tgt": gen_target(r, neps, nsect), "pv": pv, "body": gen_body(r, i, odd)})
         elif x < 0.68:
             steps.append({"op": "del", "peer": r.randrange(npeers), "tgt": gen_target(r, neps, nsect)})
-        elif x < 0.88:
+        elif x < (0.80 if odd else 0.88):
             if r.random() < 0.3:
                 steps.append({"op": "idle", "how": ["dt", r.choice([1.0, 10.0, 30.0, 58.0])]})
             else:
@@ -291,17 +448,22 @@ def gen(r):
             if r.random() < 0.25:
                 q = ["page", r.choice([1, 2, 3])]
             else:
-                q = ["crit", r.choice(CRITERIA), r.randrange(16)]
+                q = ["crit", r.choice(CRITERIA_ODD if odd and r.random() < 0.65 else CRITERIA), r.randrange(16)]
                 if r.random() < 0.35:
                     # a second search criterion on another key: both must hold (RFC 9176 section 6.1)
                     first_key = q[1].split("-")[0]
-                    others = [c for c in CRITERIA if c.split("-")[0] != first_key and not (first_key in ("rt", "if", "extra", "href") and c.split("-")[0] == first_key)]
+                    others = [c for c in CRITERIA + (CRITERIA_ODD if odd else []) if c.split("-")[0] != first_key and not (first_key in ("rt", "if", "extra", "href") and c.split("-")[0] == first_key)]
                     q += [r.choice(others), r.randrange(16)]
             steps.append({"op": "lookup", "kind": kind, "q": q, "peer": r.randrange(npeers), "szx": r.choice([None, None, 6, 4, 2])})
-    return {"steps": steps, "sweep_szx": r.choice([None, None, None, 6, 4]), "npeers": npeers}
+    return {"steps": steps, "sweep_szx": r.choice([None, None, None, 6, 4]), "npeers": npeers, "eps": eps}
 
 
 CRITERIA = ["ep-exact", "ep-prefix", "ep-none", "d", "rt-exact", "rt-second", "rt-prefix", "if", "extra", "extra-prefix", "href-target", "href-loc", "href-prefix"]
+# search criteria on what the odd content put there: a parameter / attribute that some registration has without a value
+# (RFC 6690 4.1: it has no value, so it matches no `name=value`), and the odd values themselves
+CRITERIA_ODD = ["novalue-prefix", "novalue-exact", "novalue-if", "oddvalue-param", "oddvalue-param-prefix", "oddvalue-link", "oddvalue-link-prefix", "title"]
+# endpoint names that need link-format's quoting / escaping when listed
+ODD_EPS = ["back\\slash", "trail\\", 'q"uo,te;', "\u00fcn\u00ef<c>"]
 
 # fixed scripts: acceptance pins and one deterministic witness per understood deviation of the unchanged tree
 _L = lambda i, v=0: ["links", i, v]  # noqa: E731
@@ -404,10 +566,111 @@ FIXED = {
     "w-base-unknown-scheme": [
         {"op": "reg", "peer": 0, "ep": 0, "d": 0, "shape": "ok", "pv": "base-unknown-scheme", "body": _L(2)},
     ],
+    # odd content (ODD_PV, oddlinkset): one deterministic history per mechanism
+    "w-odd-parameter-name": [
+        {"op": "reg", "peer": 0, "ep": 0, "d": 0, "shape": "ok", "pv": "plain", "body": _L(0)},
+        {"op": "reg", "peer": 1, "ep": 1, "d": 0, "shape": "ok", "pv": "name-foreign-link", "body": _L(1)},
+    ],
+    "w-odd-parameter-name-unparsable": [
+        {"op": "reg", "peer": 0, "ep": 0, "d": 0, "shape": "ok", "pv": "plain", "body": _L(0)},
+        {"op": "post", "peer": 0, "tgt": ["key", 0, 0], "pv": "name-empty", "body": "none"},
+    ],
+    "w-odd-parameter-value": [
+        {"op": "reg", "peer": 0, "ep": 0, "d": 0, "shape": "ok", "pv": "plain", "body": _L(0)},
+        {"op": "reg", "peer": 1, "ep": 1, "d": 0, "shape": "ok", "pv": "value-backslash-end", "body": _L(1)},
+    ],
+    "w-odd-parameter-value-mid": [
+        {"op": "reg", "peer": 1, "ep": 1, "d": 0, "shape": "ok", "pv": "value-backslash-mid", "body": _L(1)},
+    ],
+    "w-odd-link-attribute-value": [
+        {"op": "reg", "peer": 0, "ep": 0, "d": 0, "shape": "ok", "pv": "plain", "body": _L(0)},
+        {"op": "reg", "peer": 1, "ep": 1, "d": 0, "shape": "ok", "pv": "plain", "body": ["odd", 1, 0]},
+    ],
+    "w-odd-link-attribute-value-filter": [
+        {"op": "reg", "peer": 0, "ep": 0, "d": 0, "shape": "ok", "pv": "plain", "body": ["odd", 0, 0]},
+        {"op": "lookup", "kind": "res", "q": ["crit", "oddvalue-link", 0], "peer": 0, "szx": None},
+        {"op": "reg", "peer": 0, "ep": 1, "d": 0, "shape": "ok", "pv": "plain", "body": ["odd", 4, 0]},
+        {"op": "lookup", "kind": "ep", "q": ["crit", "title", 0], "peer": 0, "szx": None},
+    ],
+    "w-odd-base": [
+        {"op": "reg", "peer": 0, "ep": 0, "d": 0, "shape": "ok", "pv": "plain", "body": _L(0)},
+        {"op": "reg", "peer": 1, "ep": 1, "d": 0, "shape": "ok", "pv": "base-bracket-open", "body": _L(1)},
+    ],
+    "w-odd-base-update": [
+        {"op": "reg", "peer": 0, "ep": 0, "d": 0, "shape": "ok", "pv": "plain", "body": _L(0)},
+        {"op": "post", "peer": 0, "tgt": ["key", 0, 0], "pv": "base-v6-unclosed+lt60", "body": "none"},
+    ],
+    "w-odd-link-target": [
+        {"op": "reg", "peer": 0, "ep": 0, "d": 0, "shape": "ok", "pv": "plain", "body": _L(0)},
+        {"op": "reg", "peer": 1, "ep": 1, "d": 0, "shape": "ok", "pv": "plain", "body": ["odd", 7, 0]},
+    ],
+    "w-odd-link-anchor-simple": [
+        {"op": "reg", "peer": 0, "ep": 0, "d": 0, "shape": "ok", "pv": "plain", "body": _L(0)},
+        _S(1, 1, 0, "lt60", ["odd", 9, 0]),
+    ],
+    "w-odd-parameter-without-value": [
+        {"op": "reg", "peer": 0, "ep": 0, "d": 0, "shape": "ok", "pv": "lt60", "body": _L(0)},
+        {"op": "reg", "peer": 1, "ep": 1, "d": 0, "shape": "ok", "pv": "if-novalue", "body": _L(1)},
+        {"op": "lookup", "kind": "ep", "q": ["crit", "if", 0], "peer": 0, "szx": None},
+        {"op": "lookup", "kind": "res", "q": ["crit", "if", 1], "peer": 0, "szx": None},
+    ],
+    "w-odd-link-attribute-without-value": [
+        {"op": "reg", "peer": 0, "ep": 0, "d": 0, "shape": "ok", "pv": "plain", "body": _L(3)},
+        {"op": "lookup", "kind": "res", "q": ["crit", "novalue-prefix", 0], "peer": 0, "szx": None},
+        {"op": "lookup", "kind": "ep", "q": ["crit", "novalue-prefix", 4], "peer": 0, "szx": None},
+    ],
+    "w-odd-update-naming-listed-base": [
+        {"op": "reg", "peer": 0, "ep": 0, "d": 0, "shape": "ok", "pv": "lt60", "body": _L(0)},
+        {"op": "idle", "how": ["dt", 10.0]},
+        {"op": "post", "peer": 0, "tgt": ["key", 0, 0], "pv": "lt3+base-as-listed", "body": "none"},
+        {"op": "post", "peer": 0, "tgt": ["key", 0, 0], "pv": "none", "body": "none"},
+        {"op": "idle", "how": ["dt", 30.0]},
+    ],
+    "w-odd-update-naming-listed-base-location-reused": [
+        {"op": "reg", "peer": 0, "ep": 0, "d": 0, "shape": "ok", "pv": "lt60", "body": _L(0)},
+        {"op": "post", "peer": 0, "tgt": ["key", 0, 0], "pv": "lt3+base-as-listed", "body": "none"},
+        {"op": "post", "peer": 0, "tgt": ["key", 0, 0], "pv": "none", "body": "none"},
+        _S(1, 1, 0, "lt120", ["links", 1, 0], mode="separate", delay=20.0),
+    ],
+    "w-odd-update-base-without-value": [
+        {"op": "reg", "peer": 0, "ep": 0, "d": 0, "shape": "ok", "pv": "lt60", "body": _L(0)},
+        {"op": "put", "peer": 0, "tgt": ["key", 0, 0], "pv": "lt180+base-novalue", "body": _L(1, 1)},
+        {"op": "post", "peer": 0, "tgt": ["key", 0, 0], "pv": "none", "body": "none"},
+        {"op": "idle", "how": ["boundary", "soonest", 0, "g+1"]},
+    ],
 }
 
 
 # ---------------------------------------------------------------------------------------------- execution
+
+
+def write_dims(pv, table, body):
+    """The monitors (odd dimensions) a write with this parameter variant / body kind exercises."""
+    out = []
+    cls = table[pv][1] if pv is not None else None
+    if pv is not None:
+        if pv.startswith("name-"):
+            out.append("write_parameter_name_not_a_parmname")
+        elif pv.startswith("value-") or pv.startswith("et-backslash"):
+            out.append("write_parameter_value_needing_escapes")
+        elif "-novalue" in pv and "base" not in pv and "lt" not in pv.split("+")[0] or pv == "flag":
+            out.append("write_parameter_without_value")
+        elif "base-novalue" in pv:
+            out.append("write_base_without_value")
+        elif cls == "odd" and "base-" in pv:
+            out.append("write_base_not_a_uri")
+    if body is not None and body[0] == "odd":
+        out.append("write_links_needing_escapes" if body[1] <= 5 else "write_link_attributes_without_value" if body[1] == 6 else "write_link_target_not_a_uri")
+    return out
+
+
+def alt_why(opclass, cc):
+    # a request answered 5.xx was not successful either; kept apart from the 4.xx ones in the naming
+    return opclass if cc != 5 else "5xx/" + opclass
+
+
+def alt_name(w):
+    return "failed-" + w[4:] if w.startswith("5xx/") else "rejected-" + w
 
 
 class Stop(Exception):
@@ -449,8 +712,11 @@ ALT_ORDER = ["update-post-with-body", "update-put", "update-post", "reregister",
 
 
 def alt_rank(a):
+    # a request that broke off with 5.xx is the likelier one to have been carried out in part than one that was refused
     w = a[2]
-    return (ALT_ORDER.index(w) if w in ALT_ORDER else len(ALT_ORDER), a[0])
+    five = w.startswith("5xx/")
+    w = w[4:] if five else w
+    return (not five, ALT_ORDER.index(w) if w in ALT_ORDER else len(ALT_ORDER), a[0])
 
 
 class Runner:
@@ -468,6 +734,7 @@ class Runner:
         self.put_codes = set()
         self.stopped = None
         self.fetch = None  # the registrant's script for the directory's GET /.well-known/core during a simple registration
+        self.eps = list(h.get("eps") or EPS)  # the endpoint names of this history
 
     # -- plumbing -------------------------------------------------------------------------------------
     async def setup(self):
@@ -512,6 +779,9 @@ class Runner:
         if kind == "links":
             p = linkset(react[1], "%sv%d" % (tag, react[2] % 3))
             return c("2.05"), 40, p, self.reflink.parse(p)
+        if kind == "odd":
+            p, meant, _how = oddlinkset(react[1], "%sv%d" % (tag, react[2] % 3))
+            return c("2.05"), 40, p, [self.reflink.Link(h, tuple(ps)) for h, ps in meant]
         if kind == "empty":
             return c("2.05"), 40, b"", []
         if kind == "error":
@@ -693,7 +963,7 @@ class Runner:
 
     def model_summary(self, model=None):
         model = model or self.model
-        return [{"key": list(r.key), "loc": r.loc, "lt": r.lt, "written": round(r.t, 3), "base": r.base, "extras": r.extras, "nlinks": len(r.links), "alts": [(round(t, 3), lt, w) for (t, lt, w) in r.alts]} for r in model.live.values()]
+        return [{"key": list(r.key), "loc": r.loc, "lt": r.lt, "written": round(r.t, 3), "base": r.base, "extras": r.extras, "nlinks": len(r.links), "alts": [(round(t, 3), lt, w) for (t, lt, w) in r.alts], "latent": list(r.latent)} for r in model.live.values()]
 
     async def sweep(self, ctx):
         """Fetch everything, compare with the model. ctx: kind ('op'|'idle'), opclass, cc (response class), cands."""
@@ -741,6 +1011,11 @@ class Runner:
         # 1. a request answered 4.xx (5.xx) that was nevertheless (partly) carried out
         for name, cand in cands:
             if not compare(ref, cand, obs):
+                lost = [r for k, r in self.model.live.items() if k not in cand.live]
+                if name.endswith("registration-removed") and lost and all(any(now >= a[0] + a[1] + self.grace for a in r.alts) for r in lost):
+                    # the request took so long that a lifetime carried by an earlier unsuccessful request ran out meanwhile:
+                    # that is what 2. below reports; this request need not have removed anything
+                    continue
                 if ctx["cc"] in (0, 4):
                     self.viol(
                         "%s-%s/%s" % ("rejected" if ctx["cc"] == 4 else "unanswered", opclass, name),
@@ -763,7 +1038,8 @@ class Runner:
                     expl = sorted([a for a in g.alts if now < a[0] + a[1] + self.grace], key=alt_rank)
                     if expl:
                         g.t, g.lt = expl[0][0], expl[0][1]
-                        g.alts = [a for a in g.alts if a[0] > g.t]
+                        # (the other lifetimes that explain it as well stay candidates: which one is at work shows later)
+                        g.alts = [a for a in g.alts if a[0] >= g.t and a != expl[0]]
                         adj.ghosts.remove(g)
                         adj.live[g.key] = g
                         if g.loc in adj.freed:
@@ -778,8 +1054,8 @@ class Runner:
         if why and not compare(ref, adj, obs):
             for how, w, r, expl in why:
                 self.viol(
-                    "expiry/lifetime-set-by-rejected-%s" % w,
-                    "a registration is %s the lifetime of its latest successful write; the lifetime matches a %s that was answered 4.xx" % ("listed beyond" if how == "listed-beyond" else "gone before the end of", w.replace("-", " ")),
+                    "expiry/lifetime-set-by-%s" % alt_name(w),
+                    "a registration is %s the lifetime of its latest successful write; the lifetime matches a %s that was answered %s" % ("listed beyond" if how == "listed-beyond" else "gone before the end of", w.replace("5xx/", "").replace("-", " "), "5.xx" if w.startswith("5xx/") else "4.xx"),
                     registration={"key": list(r.key), "loc": r.loc},
                     rejected_requests_that_explain_it=[{"t": round(t, 3), "lt": lt, "request": x} for (t, lt, x) in expl],
                     mismatch=[(x, d) for x, d in mm][:3],
@@ -806,7 +1082,13 @@ class Runner:
                 )
                 self.model = adj
                 return
-        # 4. anything else: report and stop judging this history
+        # 4. an answer that fails, does not parse or lists something else while registrations with odd content (see
+        #    ODD_PV, oddlinkset) are concerned: named after that content
+        key = self.attribute(mm, obs, ctx.get("naming_model"))
+        if key is not None:
+            self.viol(key[0], key[1] + " (after %s answered %s)" % (ctx.get("opclass", "an idle step"), ctx.get("code_str", "-")), mismatch=[(w, d) for w, d in mm][:3], model=self.model_summary())
+            raise Stop
+        # 5. anything else: report and stop judging this history
         which, kind = mm_kind(mm)
         if ctx["kind"] == "idle":
             if which == "lookup-ep" and kind == "unexpected":
@@ -827,6 +1109,96 @@ class Runner:
         self.viol(key, "after %s (answered %s) the directory differs from the reference model in %s" % (opclass, ctx.get("code_str", "-"), ", ".join(w for w, _d in mm)), mismatch=[(w, d) for w, d in mm][:4], model=self.model_summary())
         raise Stop
 
+    INJ_TEXT = {
+        "parameter-name": "a registration parameter whose name is no RFC 6690 parmname was accepted and is written into the endpoint lookup as it came",
+        "parameter-value": "a registration parameter (or endpoint name) whose value contains a backslash was accepted and is not listed with that value",
+        "link-attribute-value": "a link whose attribute value contains a backslash (RFC 6690 quoted-pair) was accepted and is not listed with that value",
+    }
+    URI_TEXT = {
+        "base": "a registration whose base has no RFC 3986 authority (so nothing can be resolved against it) was accepted",
+        "link-target": "a link whose target or anchor has no RFC 3986 authority (so it cannot be resolved) was accepted",
+    }
+
+    def attribute(self, mm, obs, model=None):
+        """Name a mismatch after the odd content of the registrations concerned. -> (key, text) | None.
+        Only naming: that there IS a violation was decided by the comparison with the model."""
+        ref = self.ref
+        which, d = mm[0]
+        live = list((model or self.model).live.values())
+        involved = live
+        if which in ("lookup-ep", "lookup-res"):
+            if "error" in d:
+                err = str(d["error"])
+                sym = "fails" if err.startswith("code ") else "unparsable" if err.startswith("unparsable") else None
+            else:
+                sym = "wrong-entries"
+                seen = obs["ep" if which == "lookup-ep" else "res"]
+                if which == "lookup-ep":
+                    inv = [r for r in live if r.ep_entry() not in seen]
+                else:
+                    inv = [r for r in live if any(e not in seen for e in r.res_entries())]
+                involved = inv or live
+        elif which == "regres":
+            involved = [r for r in live if r.loc == d["loc"]]
+            got = d["got"]
+            sym = "wrong-entries" if isinstance(got, list) else "unparsable" if str(got).startswith("unparsable") else "fails" if str(got).startswith("code ") else None
+        else:
+            return None
+        if sym is None:
+            return None
+        feats = set()
+        for r in involved:
+            feats |= ref.features(r)
+        if sym == "fails":
+            for f in ("base", "link-target"):
+                if f in feats:
+                    return "unresolvable-uri/%s/%s-fails" % (f, which), "%s; the %s now answers %s" % (self.URI_TEXT[f], which.replace("lookup-ep", "endpoint lookup").replace("lookup-res", "resource lookup").replace("regres", "registration resource"), d.get("error") or d.get("got"))
+            return None
+        order = ("parameter-name", "parameter-value") if which == "lookup-ep" else ("link-attribute-value",)
+        for f in order:
+            if f in feats:
+                return "linkformat-injection/%s/%s-%s" % (f, which, sym), "%s; the %s %s" % (self.INJ_TEXT[f], which.replace("lookup-ep", "endpoint lookup").replace("lookup-res", "resource lookup").replace("regres", "registration resource"), "is no link-format any more" if sym == "unparsable" else "lists other entries than were registered")
+        return None
+
+    def attribute_filter(self, kind, names, got, want):
+        """The same for a filtered lookup. -> (key, text) | None"""
+        ref = self.ref
+        live = list(self.model.live.values())
+        feats = set()
+        for r in live:
+            feats |= ref.features(r)
+        if not isinstance(got, list):
+            err = str(got)
+            if err.startswith("code "):
+                if any(n in ref.valueless_names(r) for r in live for n in names):
+                    return "valueless-attribute/lookup-%s-fails" % kind, "a lookup filtering on a name that some registration carries as a parameter or link attribute WITHOUT a value (RFC 6690 4.1: it then matches no value) is answered %s" % err[5:]
+                for f in ("base", "link-target"):
+                    if f in feats:
+                        return "unresolvable-uri/%s/lookup-%s-fails" % (f, kind), "%s; a filtered lookup now answers %s" % (self.URI_TEXT[f], err[5:])
+            elif err.startswith("unparsable"):
+                for f in ("parameter-name", "parameter-value") if kind == "ep" else ("link-attribute-value",):
+                    if f in feats:
+                        return "linkformat-injection/%s/lookup-%s-unparsable" % (f, kind), "%s; a filtered lookup is no link-format any more" % self.INJ_TEXT[f]
+            return None
+        delta = [e for e in want if e not in got] + [e for e in got if e not in want]
+        inv = [r for r in live if (r.ep_entry() in delta if kind == "ep" else any(e in delta for e in r.res_entries()))]
+        if not inv:
+            return None
+        found = set()
+        for r in inv:
+            f = ref.features(r)
+            bs_names = set(k for k, vs in r.extras for v in vs if v is not None and "\\" in v)
+            if "\\" in r.key[0]:
+                bs_names.add("ep")
+            if any(n in bs_names for n in names):
+                found.add("parameter-value")
+            elif "link-attribute-value" in f:
+                found.add("link-attribute-value")
+            else:
+                return None
+        f = sorted(found, reverse=True)[0]
+        return "linkformat-injection/%s/filter-mismatch" % f, "%s; a lookup filtering on such a value does not list exactly the matching entries" % self.INJ_TEXT[f]
+
     async def settle(self):
         slept = False
         while True:
@@ -841,7 +1213,7 @@ class Runner:
     def target(self, tgt):
         """-> (loc, segs) or None when the registrant knows no location to build one from"""
         if tgt[0] == "key":
-            key = (EPS[tgt[1]], SECTORS[tgt[2]])
+            key = (self.eps[tgt[1]], SECTORS[tgt[2]])
             if key in self.client_loc:
                 return self.client_loc[key]
             tgt = ["never"]
@@ -870,6 +1242,9 @@ class Runner:
         if kind == "links":
             p = linkset(body[1], "%sv%d" % (tag, body[2] % 3))
             return p, 40, self.reflink.parse(p)
+        if kind == "odd":
+            p, meant, _how = oddlinkset(body[1], "%sv%d" % (tag, body[2] % 3))
+            return p, 40, [self.reflink.Link(h, tuple(ps)) for h, ps in meant]
         if kind == "malformed":
             return MALFORMED[body[1]], 40, None
         if kind == "cf-text":
@@ -902,7 +1277,7 @@ class Runner:
 
     async def do_reg(self, st):
         ref, rep = self.ref, self.rep
-        ep, d = EPS[st["ep"]], SECTORS[st["d"]]
+        ep, d = self.eps[st["ep"]], SECTORS[st["d"]]
         shape = st["shape"]
         q = {"ok": ["ep=" + ep], "ep-missing": [], "ep-repeated": ["ep=" + ep, "ep=other"], "d-repeated": ["ep=" + ep, "d=x", "d=y"], "ep-novalue": ["ep"]}[shape]
         if d is not None and shape != "d-repeated":
@@ -959,6 +1334,8 @@ class Runner:
                     self.viol("location/reregistration-changed-location", "re-registering (ep, d) = %r returned %s, the registration was at %s" % (key, loc, old.loc))
             else:
                 other = self.model.at(loc)
+                if other is not None and self.gone_by_alt(other, now):
+                    other = None
                 if other is not None:
                     self.viol("location/shared-by-distinct-registrations", "the new registration %r got location %s of the live registration %r" % (key, loc, other.key))
                     raise Stop
@@ -979,19 +1356,24 @@ class Runner:
                 rep.seen("accepted_uninterpretable", "%s/%s/%s" % (shape, st["pv"], st["body"][0]))
                 raise Stop
             self.client_loc[key] = (loc, segs)
+            if b"\\" in payload:
+                self.model.live[key].marks.add("link-escapes")
         else:
             if old is not None:
-                old.alts.append((now, self._alt_lt(q, ref.DEFAULT_LT), opclass))
+                old.alts.append((now, self._alt_lt(q, ref.DEFAULT_LT), alt_why(opclass, cc)))
             ctx["cands"] = cands
             if cc == 5:
                 rep.count("answered_5xx")
+        for dim in write_dims(st["pv"], REG_PV, st["body"]):
+            rep.monitor(dim)
+            rep.seen("odd_write_outcomes", "%s/%s -> %s" % (opclass, dim, code_str))
         await self.sweep(ctx)
 
     async def do_sreg(self, st):
         """Simple registration (RFC 9176 5.1): POST /.well-known/rd?ep=..&lt=.. without body; the directory fetches the
         registrant's /.well-known/core (the registrant's reaction is st["react"]) and answers afterwards."""
         ref, rep = self.ref, self.rep
-        ep, d = EPS[st["ep"]], SECTORS[st["d"]]
+        ep, d = self.eps[st["ep"]], SECTORS[st["d"]]
         shape = st["shape"]
         q = {"ok": ["ep=" + ep], "ep-missing": [], "ep-repeated": ["ep=" + ep, "ep=other"], "d-repeated": ["ep=" + ep, "d=x", "d=y"], "ep-novalue": ["ep"]}[shape]
         if d is not None and shape != "d-repeated":
@@ -1055,8 +1437,23 @@ class Runner:
                 raise Stop
             # 2.04 carries no location (RFC 9176 5.1): the registrant learns it from the endpoint lookup
             code, listed, _raw = await self.get_links(st["peer"], self.ep_path)
+            # (for naming only) the directory as it would be with this registration at a location not yet known
+            withit = self.model.clone()
+            try:
+                withit.register(key, "/?", ref.parse_query(q), links, src, t_hi, slack=slack)
+                if b"\\" in answer[2]:
+                    withit.live[key].marks.add("link-escapes")
+            except ref.Unappliable:
+                withit = None
+            for dim in write_dims(st["pv"], REG_PV, react):
+                rep.monitor(dim)
+                rep.seen("odd_write_outcomes", "%s/%s -> %s" % (opclass, dim, code_str))
             if not isinstance(listed, list):
-                self.viol("lookup-ep/unusable-after-" + opclass, "the endpoint lookup after an accepted simple registration: %s" % (listed,))
+                named = self.attribute([("lookup-ep", {"error": listed})], None, withit) if withit is not None else None
+                if named is not None:
+                    self.viol(named[0], named[1] + " (after %s answered %s)" % (opclass, code_str))
+                else:
+                    self.viol("lookup-ep/unusable-after-" + opclass, "the endpoint lookup after an accepted simple registration: %s" % (listed,))
                 raise Stop
             mine = [self.norm_href(l.href) for l in listed if self.reflink.targets(l, "ep") == [ep] and (self.reflink.targets(l, "d") == ([d] if d is not None else []))]
             if not mine and t_lo + self._alt_lt(q, ref.DEFAULT_LT) + self.grace < t_hi + 0.5:
@@ -1065,10 +1462,18 @@ class Runner:
                 if old is not None:
                     self.model.remove(old)
                 await self.settle()
+                if withit is not None:
+                    withit.expire(self.loop.time())
+                    ctx["naming_model"] = withit  # (should it be listed after all, under a name or value that came out differently)
                 await self.sweep(ctx)
                 return
             if not mine:
-                self.viol("lookup-ep/missing-after-" + opclass, "a simple registration of %r was answered %s, but the endpoint lookup does not list it" % (key, code_str), lookup=ref.canon_ep(listed)[:8])
+                seen = ref.canon_ep([self.reflink.Link(self.norm_href(l.href), l.params) for l in listed])
+                named = self.attribute([("lookup-ep", {"missing": [], "unexpected": []})], {"ep": seen}, withit) if withit is not None and "parameter-value" in ref.features(withit.live[key]) else None
+                if named is not None:
+                    self.viol(named[0], named[1] + " (after %s answered %s)" % (opclass, code_str), lookup=seen[:8])
+                else:
+                    self.viol("lookup-ep/missing-after-" + opclass, "a simple registration of %r was answered %s, but the endpoint lookup does not list it" % (key, code_str), lookup=ref.canon_ep(listed)[:8])
                 raise Stop
             if len(mine) > 1:
                 self.viol("location/two-registrations-for-one-ep-d", "the endpoint lookup lists two registrations with the same endpoint name and sector", lookup=ref.canon_ep(listed)[:8])
@@ -1084,6 +1489,8 @@ class Runner:
                 if ambiguous and old_lo is not None and loc == old_lo.loc:
                     rep.count("simple_reregistration_while_old_one_ran_out")
                 other = self.model.at(loc)
+                if other is not None and other.key != key and self.gone_by_alt(other, t_hi):
+                    other = None
                 if other is not None and other.key != key:
                     self.viol("location/shared-by-distinct-registrations", "the new registration %r got location %s of the live registration %r" % (key, loc, other.key))
                     raise Stop
@@ -1101,13 +1508,15 @@ class Runner:
                 rep.seen("accepted_uninterpretable", "simple/%s/%s/%s" % (shape, st["pv"], react[0]))
                 raise Stop
             self.client_loc[key] = (loc, self.locsegs[loc])
+            if b"\\" in answer[2]:
+                self.model.live[key].marks.add("link-escapes")
         else:
             if old is not None:
                 # had the request been carried out although it was refused, at some instant of [t_lo, t_hi]
                 lt = self._alt_lt(q, ref.DEFAULT_LT)
-                old.alts.append((t_hi, lt, opclass))
+                old.alts.append((t_hi, lt, alt_why(opclass, cc)))
                 if slack > 0.01:
-                    old.alts.append((t_lo, lt, opclass))
+                    old.alts.append((t_lo, lt, alt_why(opclass, cc)))
             if cc == 5:
                 rep.count("answered_5xx")
             offered = None
@@ -1149,12 +1558,33 @@ class Runner:
             ctx["cands_fn"] = cands_fn
         # the answer may have come at an instant at which the liveness of another registration is not sampled
         await self.settle()
+        for dim in write_dims(st["pv"], REG_PV, react if f["seen"] else None) if cc != 2 else ():
+            rep.monitor(dim)
+            rep.seen("odd_write_outcomes", "%s/%s -> %s" % (opclass, dim, code_str))
         await self.sweep(ctx)
         rep.monitor("simple_registration")
         if cc == 2:
             rep.monitor("simple_registration_listed")
         elif links is None or f["seen"] == 0:
             rep.monitor("simple_registration_failed_fetch")
+
+    def gone_by_alt(self, other, now):
+        """The location of the model's live registration `other` was handed to a new one. If the lifetime that an
+        unsuccessful request carried has ended for `other`, that is the deviation to report (as the sweep would have, had
+        it come first): report, drop `other` from the model, go on. -> True if so"""
+        expl = sorted([a for a in other.alts if now >= a[0] + a[1] + self.grace], key=alt_rank)
+        if not expl:
+            return False
+        w = expl[0][2]
+        self.viol(
+            "expiry/lifetime-set-by-%s" % alt_name(w),
+            "a registration is gone before the end of the lifetime of its latest successful write (its location was given to a new registration); the lifetime matches a %s that was answered %s" % (w.replace("5xx/", "").replace("-", " "), "5.xx" if w.startswith("5xx/") else "4.xx"),
+            registration={"key": list(other.key), "loc": other.loc},
+            rejected_requests_that_explain_it=[{"t": round(t, 3), "lt": lt, "request": x} for (t, lt, x) in expl],
+            model=self.model_summary(),
+        )
+        self.model.remove(other)
+        return True
 
     def _alt_lt(self, q, fallback):
         vals = [v for (k, v) in self.ref.parse_query(q) if k == "lt"]
@@ -1176,18 +1606,19 @@ class Runner:
         src = PEERS[st["peer"]]
         before = self.model_summary()
         pre_locs = [r.loc for r in self.model.live.values()] + [loc]
+        was_explicit = R.base_explicit if R is not None else None
         q, payload, cf, links = [], b"", None, None
         if op == "del":
             opclass, method = "delete", 4
         else:
-            q = [x.replace("{ep}", R.key[0] if R is not None else "node1") for x in UPD_PV[st["pv"]][0]]
+            q = [x.replace("{ep}", R.key[0] if R is not None else "node1").replace("{base}", R.base if R is not None else "coap://nobody.example") for x in UPD_PV[st["pv"]][0]]
             if op == "post":
                 method = 2
                 payload, cf = {"none": (b"", None), "body+cf": (b"</x>;rt=\"upd\"", 40), "body-nocf": (b"</x>", None), "cf-nobody": (b"", 40)}[st["body"]]
                 opclass = "update-post" if st["body"] == "none" else "update-post-with-body"
             else:
                 method = 3
-                tag = "e%d%s" % (EPS.index(R.key[0]), R.key[1] or "") if R is not None else "zz"
+                tag = "e%d%s" % (self.eps.index(R.key[0]), R.key[1] or "") if R is not None else "zz"
                 payload, cf, links = self.body_of(st["body"], tag + "p")
                 opclass = "update-put"
         cands = []
@@ -1236,11 +1667,13 @@ class Runner:
                     raise Stop
                 if op == "put" and UPD_PV[st["pv"]][1] == "valid":
                     self.put_codes.add("2.xx")
+                if op == "put" and b"\\" in payload:
+                    R.marks.add("link-escapes")
         else:
             if R is not None:
                 self.nontrivial = True
                 if op != "del":
-                    self.model.note_rejected(R, ref.parse_query(q), now, opclass)
+                    self.model.note_rejected(R, ref.parse_query(q), now, alt_why(opclass, cc))
                 if op == "put" and code_str == "4.05":
                     self.put_codes.add("4.05")
             elif cc == 4:
@@ -1248,6 +1681,15 @@ class Runner:
             ctx["cands"] = cands
             if cc == 5:
                 rep.count("answered_5xx")
+        if R is not None and op != "del":
+            for dim in write_dims(st["pv"], UPD_PV, st["body"] if op == "put" else None):
+                rep.monitor(dim)
+                rep.seen("odd_write_outcomes", "%s/%s -> %s" % (opclass, dim, code_str))
+            if "base-as-listed" in st["pv"]:
+                rep.monitor("update_naming_listed_base")
+                if not was_explicit:
+                    rep.monitor("update_naming_listed_default_base")
+                rep.seen("odd_write_outcomes", "%s/base-as-listed/%s -> %s" % (opclass, "explicit" if was_explicit else "default", code_str))
         await self.sweep(ctx)
 
     async def do_idle(self, st):
@@ -1279,7 +1721,7 @@ class Runner:
         regs = sorted(self.model.live.values(), key=lambda r: r.loc)
         entries = [e for r in regs for e in r.res_entries()]
         if cname == "ep-exact":
-            return "ep", EPS[arg % len(EPS)]
+            return "ep", self.eps[arg % len(self.eps)]
         if cname == "ep-prefix":
             return "ep", "n*"
         if cname == "ep-none":
@@ -1306,7 +1748,30 @@ class Runner:
             if not regs:
                 return "href", "/nosuch"
             return "href", regs[arg % len(regs)].loc
-        return "href", ["coap://10.0.0.2*", "coap://[2001:db8::*", "coap://other.example/*"][arg % 3]
+        if cname.startswith("novalue"):
+            # a name that some live registration carries without a value (as parameter or link attribute)
+            names = sorted(set(n for r in regs for n in self.ref.valueless_names(r) if self.ref.representable_name(n)))
+            if cname == "novalue-if":
+                return "if", ["sensor", "core*"][arg % 2]
+            name = names[arg % len(names)] if names else ["obs", "flag"][arg % 2]
+            return name, ["tr*", "*"][(arg // 4) % 2] if cname == "novalue-prefix" else ["true", "1"][(arg // 4) % 2]
+        if cname.startswith("oddvalue-param"):
+            vals = sorted(set((k, v) for r in regs for k, vs in r.extras for v in vs if v and self.ref.representable_name(k) and k not in ("page", "count") and any(c in v for c in '\\",; ')))
+            vals += sorted(set(("ep", r.key[0]) for r in regs if any(c in r.key[0] for c in '\\",;<')))
+            k, v = vals[arg % len(vals)] if vals else ("foo", "x\\")
+        elif cname.startswith("oddvalue-link"):
+            vals = sorted(set((k, v) for r in regs for l in r.links for k, v in l.params if v and k not in ("anchor", "rt", "if") and ("\\" in v or '"' in v or "link-escapes" in r.marks)))
+            k, v = vals[arg % len(vals)] if vals else ("title", "x\\")
+        elif cname == "title":
+            return "title", ["plain", "pl*", "x*", "say*"][arg % 4]
+        else:
+            return "href", ["coap://10.0.0.2*", "coap://[2001:db8::*", "coap://other.example/*"][arg % 3]
+        if cname.endswith("-prefix"):
+            cut = max(1, len(v) - 1 - (arg // 4) % 2)
+            return k, v[:cut] + "*"
+        if v.endswith("*"):
+            return k, v + "*"  # (a value ending in '*' can only be searched as a prefix)
+        return k, v
 
     async def do_lookup(self, st):
         ref, rep = self.ref, self.rep
@@ -1352,9 +1817,19 @@ class Runner:
         rep.monitor("lookup_filter")
         if two:
             rep.monitor("lookup_filter_two_criteria")
+        names = [x.split("=", 1)[0] for x in query]
+        if any(n in ref.valueless_names(r) for r in self.model.live.values() for n in names):
+            rep.monitor("filter_on_name_registered_without_value")
+        if any("\\" in x or '"' in x for x in query):
+            rep.monitor("filter_on_value_needing_escapes")
+            if want:
+                rep.monitor("filter_on_value_needing_escapes_matching")
         self.sig.append(("lookup-filter", st["kind"], st["q"][1], st["q"][3] if two else None, len(want) > 0, len(want) < len(full)))
         self.trace.append({"t": round(self.loop.time(), 3), "request": {"GET": "/" + "/".join(path), "query": "&".join(query)}, "answer": self.rc.code_str(code) if code else "none", "n": len(got) if isinstance(got, list) else got})
-        if got != want:
+        named = self.attribute_filter(st["kind"], names, got, want) if got != want else None
+        if named is not None:
+            self.viol(named[0], named[1], query="&".join(query), difference=ref.diff(want, got) if isinstance(got, list) else got, model=self.model_summary())
+        elif got != want:
             self.viol("lookup-%s/filter-mismatch/%s" % (st["kind"], (st["q"][1] if not two else "two-criteria")), "a lookup with %s does not list exactly the matching live entries (RFC 9176 6.1)" % ("two search criteria" if two else "one search criterion"), query="&".join(query), difference=ref.diff(want, got) if isinstance(got, list) else got, model=self.model_summary())
 
     def r_order(self, st):
@@ -1428,6 +1903,7 @@ def run_shard(shard, rep, only=None):
 
     reflink.selftest()
     ref.selftest()
+    oddlinks_selftest(reflink)
     try:
         grace = rdmod.CommonRD.Registration.grace_period
         assert isinstance(grace, (int, float)) and grace >= 1
